@@ -255,11 +255,11 @@ func runC13Curve(c *h.Ctx, cv curveT) {
 				derSig(r.Bytes(), sc), derSig(rc, s.Bytes()), // possibly negative (top bit set, no sign byte)
 				derSig(cat([]byte{0xff}, rc), sc), derSig(nil, sc), derSig(rc, nil),
 				derSig(sc, rc), // swapped
-				cat([]byte{0x30, 0x81, byte(len(good) - 2)}, good[2:]),       // long-form length where short form fits (for len < 128)
-				cat([]byte{0x30, 0x82, 0, byte(len(good) - 2)}, good[2:]),    // two-byte length with a leading zero
-				cat(good, []byte{0}),                                         // trailing data outside the SEQUENCE
-				derTLV(0x30, cat(derTLV(2, rc), derTLV(2, sc), []byte{0})),   // trailing data inside the SEQUENCE
-				derTLV(0x30, cat(derTLV(2, rc), derTLV(2, sc), derTLV(2, sc))), // a third INTEGER
+				cat([]byte{0x30, 0x81, byte(len(good) - 2)}, good[2:]),    // long-form length where short form fits (for len < 128)
+				cat([]byte{0x30, 0x82, 0, byte(len(good) - 2)}, good[2:]), // two-byte length with a leading zero
+				cat(good, []byte{0}), // trailing data outside the SEQUENCE
+				derTLV(0x30, cat(derTLV(2, rc), derTLV(2, sc), []byte{0})),                                       // trailing data inside the SEQUENCE
+				derTLV(0x30, cat(derTLV(2, rc), derTLV(2, sc), derTLV(2, sc))),                                   // a third INTEGER
 				derTLV(0x31, cat(derTLV(2, rc), derTLV(2, sc))), derTLV(0x10, cat(derTLV(2, rc), derTLV(2, sc))), // other tags
 				derTLV(0x30, cat(derTLV(3, rc), derTLV(2, sc))), derTLV(0x30, cat(derTLV(2, rc), derTLV(0x82, sc))),
 				derTLV(0x30, cat(derTLV(0x1f, rc), derTLV(2, sc))), derTLV(0x3f, cat(derTLV(2, rc), derTLV(2, sc))),
